@@ -5,11 +5,13 @@ PO(f, l, s, tg) == [freq |-> f, len |-> l, stride |-> s, toggle |-> tg, clen |->
 PC(cl, cs, st) == [freq |-> 1, len |-> 0, stride |-> 1, toggle |-> FALSE, clen |-> cl, cstride |-> cs, start |-> st]
 PS_Q == { PO(1, 0, 1, TRUE), PO(2, 0, 1, TRUE), PO(3, 2, 1, FALSE), PO(1, 3, 1, FALSE), PO(2, 2, 2, FALSE), PO(1, 3, 2, FALSE), PC(2, 1, 0), PC(1, 2, 0), PC(2, 1, 5), PC(1, 1, 3) }
 XS_Q == {1, 2, 4}
-WitInit == TLCSet(1, FALSE) /\ TLCSet(2, FALSE) /\ TLCSet(3, FALSE)
-Wit == /\ ((Len(ravg) >= 2) => TLCSet(1, TRUE))
-       /\ ((acfN >= 2 /\ runs > 1) => TLCSet(3, TRUE))
-       /\ ((\E i \in 1..Len(traj) : traj[i].k = "data" /\ traj[i].ncols = 3) => TLCSet(2, TRUE))
-WitPost == TLCGet(1) /\ TLCGet(2) /\ TLCGet(3)
-MCInit == Init /\ WitInit
+\* vacuity witnesses: the check searches a state satisfying each Witness<i> (a violation of NoWitness<i>)
+Witness1 == Len(ravg) >= 2
+NoWitness1 == ~Witness1
+Witness2 == \E i \in 1..Len(traj) : traj[i].k = "data" /\ traj[i].ncols = 3
+NoWitness2 == ~Witness2
+Witness3 == acfN >= 2 /\ runs > 1
+NoWitness3 == ~Witness3
+MCInit == Init
 MCSpec == MCInit /\ [][Next]_ovars
 =============================================================================
